@@ -142,8 +142,8 @@ type byteValue struct {
 //	quick:    value-1, value+1, value/2, every 0x10..0x1f when the byte is 0x20 (a DER length of 32 — the size of a
 //	          SHA-256 / HMAC-SHA-256 value — lowered to "at least half"), and the DER boundary values 0, 0x7f, 0x80,
 //	          0x81, 0xff; values equal to the original are skipped, duplicates removed (first rule wins);
-//	thorough: all 255 other values (the named rules first, so that rule names mean the same in both tiers).
-func byteValuesFor(orig byte, thorough bool) []byteValue {
+//	all (thorough tier): all 255 other values (the named rules first, so that rule names mean the same in both tiers).
+func byteValuesFor(orig byte, all bool) []byteValue {
 	var out []byteValue
 	var seen [256]bool
 	seen[orig] = true
@@ -164,7 +164,7 @@ func byteValuesFor(orig byte, thorough bool) []byteValue {
 	for _, v := range []byte{0, 0x7f, 0x80, 0x81, 0xff} {
 		add(v, "der-boundary-value")
 	}
-	if thorough {
+	if all {
 		for v := 0; v < 256; v++ {
 			add(byte(v), "any-other-value")
 		}
